@@ -74,6 +74,9 @@ class Monitor:
         self._alpha.append(["line", [0, 255, 3, 0, 2, self.version]])
         self._alpha.append(["line", [0, 255, 0, 0, 18, self.version]])
         self._alpha.append(["line", [0, 255, 3, 0, 9, "log"]])
+        # a new node asks for an id (the placeholder registered for it is not a presentation of anybody)
+        if cfg.get("idreq"):
+            self._alpha.append(["line", [255, 255, 3, 0, 3, ""]])
         # the gateway reports other 2.x releases: the rules in force change, the episodes do not
         for r in cfg.get("switch", []):
             self._alpha.append(["line", [0, 255, 3, 0, 2, r]])
@@ -86,6 +89,9 @@ class Monitor:
             self._alpha.append(["reenter", [0, 0, 0, 0, 0, ""]])
 
     def events(self) -> list:
+        # id requests only while fewer than two ids have been handed out (each one adds a node: the space must close)
+        if len(self.s.gateway.nodes) > len(self.model.nodes) + 1 or len(self.model.nodes) >= len(self.nodes) + 2:
+            return [e for e in self._alpha if not (e[0] == "line" and e[1][2] == 3 and e[1][4] == 3)]
         return self._alpha
 
     def apply(self, ev: list) -> list:
@@ -167,7 +173,12 @@ class Monitor:
                         bad("failed-request-not-reported", f"request write failed but step gave {out.describe()}")
             if out.kind != "raise" or not isinstance(out.exc, AIOMySensorsError):
                 bad("missing-not-rejected", f"message referring to a missing node/child gave {out.describe()}")
-        if exp[0] == "ok" and out.kind == "yield":
+        if f[2] == 3 and f[4] == R.I_ID_REQUEST:
+            for w in out.writes:
+                g = w.rstrip("\n").split(";", 5)
+                if g[2] == "3" and g[4] == "4" and R.PLAIN_INT.match(g[5]) and int(g[5]) not in self.model.nodes:
+                    self.model.placeholder(int(g[5]))
+        elif exp[0] == "ok" and out.kind == "yield":
             self.model.apply(v, f)
             if f[2] == 0 and f[1] == 255:
                 self.outstanding.discard(n)
@@ -187,25 +198,137 @@ def make(cfg):
     return Monitor(cfg)
 
 
+class TimeoutScenario:
+    """A presentation request whose write was abandoned (the application's wait for the next message timed out while it
+    was in flight) does not count as sent: the next rejected message from that node triggers a request again; once a
+    request has been written, further rejected messages write nothing."""
+
+    horizon = 3000
+
+    def __init__(self, cfg: dict, loop) -> None:
+        import asyncio
+
+        from aiomysensors.gateway import Gateway
+
+        from ..harness import AsyncScriptTransport
+
+        self.asyncio = asyncio
+        self.cfg = cfg
+        self.loop = loop
+        t = self.t = AsyncScriptTransport(loop)
+        self.gw = Gateway(t)
+        self.gw.protocol_version = cfg["version"]
+        t.sync = False
+        self.script = list(cfg["lines"])
+        self.pos = 0
+        self.budget = cfg.get("timeouts", 1)
+        self.timed_out = False
+        self.step_task = None
+        self.nontrivial = False
+        self.listener = loop.create_task(self._listen())
+
+    async def _listen(self):
+        agen = self.gw.listen()
+        try:
+            for _ in self.script:
+                self.step_task = self.loop.create_task(agen.__anext__())
+                try:
+                    await self.step_task
+                except AIOMySensorsError:
+                    await agen.aclose()
+                    agen = self.gw.listen()
+                except self.asyncio.CancelledError:
+                    if not self.timed_out:
+                        raise
+                    self.timed_out = False
+                    await agen.aclose()
+                    agen = self.gw.listen()
+        finally:
+            self.step_task = None
+            await agen.aclose()
+
+    def enabled(self) -> list:
+        self.t.pending_writes[:] = [e for e in self.t.pending_writes if not e[0].done()]
+        evs = []
+        if self.pos < len(self.script) and self.t.pending_read is not None:
+            evs.append("line")
+        for i in range(len(self.t.pending_writes)):
+            evs.append(f"write:{i}")
+        if self.budget > 0 and self.t.pending_writes and self.step_task is not None and not self.step_task.done():
+            evs.append("timeout")
+        return evs
+
+    def fire(self, label: str) -> None:
+        if label == "line":
+            self.t.deliver(self.script[self.pos])
+            self.pos += 1
+        elif label == "timeout":
+            self.budget -= 1
+            self.nontrivial = True
+            self.timed_out = True
+            self.step_task.cancel()
+        else:
+            self.t.complete_write(int(label.split(":")[1]))
+
+    def finished(self) -> bool:
+        return self.pos >= len(self.script) and self.listener.done() and self.loop.ready_count() == 0
+
+    def verdict(self, hang: bool) -> list:
+        viols = []
+
+        def bad(k, what):
+            viols.append((f"C10|timeout-{k}|2.x", f"[{self.cfg['version']}] lines {self.script}: {what}", None))
+
+        if hang:
+            bad("hang", "no enabled event while the listener is unfinished")
+            return viols
+        # per node: requests issued, in order, with their fate
+        for n in sorted({ln.split(";")[0] for ln in self.script}):
+            want = f"{n};255;3;0;19;\n"
+            fates = [st for line, st in self.t.entries if line == want]
+            msgs = sum(1 for ln in self.script if ln.split(";")[0] == n)
+            done = [i for i, st in enumerate(fates) if st == "ok"]
+            if len(done) > 1:
+                bad("repeated-request", f"node {n}: {len(done)} presentation requests were written although it never presented itself (fates {fates})")
+            if not done and len(fates) < msgs:
+                bad("abandoned-request-counted-as-sent", f"node {n} sent {msgs} rejected messages; requests issued: {fates} - after the abandoned one no further request was written")
+        return viols
+
+    def observation(self):
+        return {"entries": [list(e) for e in self.t.entries]}
+
+
+def make_scenario(cfg, loop):
+    return TimeoutScenario(cfg, loop)
+
+
 def run(ctx: core.Ctx) -> core.Report:
     if ctx.quick:
         cfgs = [{"version": v, "nodes": [1, 2]} for v in R.VERSIONS]
         cfgs.append({"version": "2.1", "nodes": [1], "persistence": True})
         cfgs.append({"version": "2.2", "nodes": [1], "app": True})
         cfgs.append({"version": "2.0", "nodes": [1], "switch": ["2.1.1", "2.2.0", "2.0.0"]})
+        cfgs.append({"version": "2.1", "nodes": [1], "idreq": True})
     else:
         cfgs = [{"version": v, "nodes": [1, 2, 3] if v in ("1.5", "2.0", "2.2") else [1, 2]} for v in R.VERSIONS]
         cfgs += [{"version": v, "nodes": [1, 2], "persistence": True} for v in ("1.5", "2.0", "2.2")]
         cfgs += [{"version": v, "nodes": [1, 2], "app": True} for v in ("2.0", "2.2")]
         cfgs += [{"version": v, "nodes": [1, 2], "switch": ["2.1.1", "2.2.0", "2.0.0", "2.0.1"]} for v in ("2.0", "2.1")]
+        cfgs += [{"version": v, "nodes": [1, 2], "idreq": True} for v in ("1.5", "2.0", "2.2")]
     res = bfs.search(ctx, MOD, cfgs, max_depth=60)
+    from .. import explore
+
+    xcfgs = [{"version": v, "lines": ls, "timeouts": 1} for v in (("2.1",) if ctx.quick else ("2.0", "2.1", "2.2")) for ls in (["7;3;1;0;2;x", "7;3;1;0;2;y", "7;255;3;0;0;50"], ["7;3;1;0;2;x", "8;3;1;0;2;x", "7;3;2;0;2;", "8;255;3;0;0;5"])]
+    xres = explore.explore(ctx, MOD, xcfgs, 1 if ctx.quick else 3)
+    res["violations"] += xres["violations"]
+    res["transitions"] += xres["executions"]
     cov = {
         "states": res["states"],
         "transitions": res["transitions"],
         "traces_validated_against_impl": res["transitions"],
         "exhaustive": res["closed"],
         "distinct_nontrivial_transitions": res["nontrivial_transitions"],
-        "rule": "BFS to a fixed point; every transition one real listen() step with or without an injected write fault or a write that takes 30 virtual seconds; non-trivial = the step refers to a missing node/child",
+        "rule": "BFS to a fixed point; every transition one real listen() step with or without an injected write fault or a write that takes 30 virtual seconds; plus E2 scenarios in which the wait for the next message times out while a request is being written; non-trivial = the step refers to a missing node/child",
         "bounds": {"depth": "fixed point" if res["closed"] else "not closed", "per_cfg": res["per_cfg"]},
         "samples": ctx.pick(res["samples"], 3),
     }
@@ -221,4 +344,8 @@ def run(ctx: core.Ctx) -> core.Report:
 
 
 def replay(data: dict) -> dict:
+    if "choices" in data:
+        from .. import explore
+
+        return explore.replay(MOD, data)
     return bfs.replay_history(MOD, data)
